@@ -119,6 +119,18 @@ Print Assumptions C11_src_queue_file_blocks_steps.
 From XcpProofs Require Import XState.
 From Coq Require Import String.
 Theorem C11_src_no_state_carried_between_files :
-  x_static_items = ["libxcp/src/backup.rs::BAK_REGEX"%string] /\ x_thread_locals = [] /\ x_umask_calls = 0%N.
+  x_static_items = ["libxcp/src/backup.rs::BAK_REGEX"; "libxcp/src/operations.rs::BACKUP_STEP"]%string /\ x_thread_locals = [] /\ x_umask_calls = 0%N.
 Proof. exact x_process_wide_state_ok. Qed.
 Print Assumptions C11_src_no_state_carried_between_files.
+
+(* ---- more glue on this property's path, pinned token for token ---- *)
+From XcpPins Require Import Pin_operations_new Pin_parblock_queue_file_blocks Pin_operations_copy_file.
+Theorem C11_src_pin_operations_new : pin_unchanged name_operations_new.
+Proof. exact pin_operations_new. Qed.
+Theorem C11_src_pin_parblock_queue_file_blocks : pin_unchanged name_parblock_queue_file_blocks.
+Proof. exact pin_parblock_queue_file_blocks. Qed.
+Theorem C11_src_pin_operations_copy_file : pin_unchanged name_operations_copy_file.
+Proof. exact pin_operations_copy_file. Qed.
+Print Assumptions C11_src_pin_operations_new.
+Print Assumptions C11_src_pin_parblock_queue_file_blocks.
+Print Assumptions C11_src_pin_operations_copy_file.
